@@ -312,6 +312,10 @@ func genStoreCase(r *rand.Rand, id int) *Case {
 	c := &Case{ID: id, Corpus: "store", VarVals: map[string]J{}, RawVars: map[string]string{},
 		Bal: map[string]map[string]int64{}, Meta: map[string]map[string]string{}, FlagOvd: r.Intn(2) == 0}
 	accts := []string{"a", "b", "c", "d"}
+	if r.Intn(4) == 0 {
+		// an ordinary account whose name only differs from "world" by its case (names are case-sensitive)
+		accts[3] = pick(r, []string{"World", "WORLD", "wOrld"})
+	}
 	assets := []string{"USD", "EUR/2"}
 	for _, a := range accts {
 		for _, as := range assets {
